@@ -88,10 +88,19 @@ def check_text(ctx, text, docs, cls, must_compile):
     if s2 != s:
         ctx.violation("string-form-not-a-fixed-point:%s" % cls, case, {"text": text, "str": s, "str2": s2})
         return
+    ctx.remember("string-form", lambda: digest(text, docs))
     for cname in {type(x).__name__ for x in _walk(p)}:
         ctx.cell("node_classes_serialised", cname)
     if len(ctx.samples) < 3 or ctx.rng.random() < 0.002:
         ctx.sample({"text": text, "str": s, "class": cls})
+
+
+def digest(text, docs):
+    import jsonpath
+
+    p = jsonpath.compile(text)
+    s = str(p)
+    return (s, str(jsonpath.compile(s)), tuple(repr(results(p, d)) for d in docs))
 
 
 def _walk(p):
